@@ -40,6 +40,10 @@ CHECKS = {
          "segment of the cloud); hull-edge branch and exactness of the slice by z3 linear arithmetic on sampled concrete clouds in 2-5 dimensions with the real qhull", "4 C17"),
  "C12": ("PARTIAL: intensity (L1) scaling decided on fully symbolic systems (light-induced part multiplied by one positive factor amax/bmax, largest capture = smallest single-source "
          "maximum, ratios unchanged, relative and absolute capture, caller array untouched); the chromatic (distance) scaling half is NOT decided (only its caller-array clause, in C14)", "4 C12"),
+ "C13": ("real sample_in_hull (pseudo-random and QMC branches) and estimator.sample_in_hull with recording stubs for the generator, Dirichlet and QMC engines, on symbolic clouds: "
+         "exactly n samples, each a convex combination of the vertices of its simplex (hence in the hull / reproducible in bounds), simplex probability = volume / total volume "
+         "(compared with the harness's own determinant formula), Dirichlet(1..1) of d+1 components, all randomness from the one seeded generator, l1 total; uniformity is reduced "
+         "to two stated lemmas, not decided", "4 C13"),
  "C05": ("exhaustive grid of (n_samples, batch_size) incl. non-dividing, larger-than-n and 'full' for the gaussian, poisson and excitation models: the real batching code "
          "(padding, block-diagonal stacking, scatter) runs on symbolic contents through the cvxpy shim; z3 decides per row: no exception, the result row is its own block of the "
          "stacked solution, it is optimal for its own target/weights alone (separability instance of the stacked contract), and the stacked problem is feasible whenever each row's is", "4 C05"),
